@@ -101,7 +101,7 @@ static int u128_hex(u128 v, char *out, int upper)
         return n;
 }
 
-static u128 VALS[600];
+static u128 VALS[900];
 static int nvals;
 
 static void make_values(void)
@@ -115,6 +115,17 @@ static void make_values(void)
         for (int q = 1; q <= 16; q++)
                 for (int r = 0; r < 9; r++) VALS[nvals++] = ((u128)q << 64) + R[r];
         for (int r = 0; r < 9; r++) VALS[nvals++] = R[r];
+        /* a boundary value followed by more digits: (B+d)*10^k + e (a parser that stops accumulating at a boundary drops them) */
+        {
+                u128 BB[7] = {(u128)1 << 7, (u128)1 << 8, (u128)1 << 15, (u128)1 << 16, (u128)1 << 31, (u128)1 << 32, (u128)1 << 63};
+                for (int b = 0; b < 7; b++)
+                        for (int d = -1; d <= 1; d++)
+                                for (int k = 1; k <= 5; k += 2) {
+                                        u128 v = BB[b] + (u128)(long long)d;
+                                        for (int i = 0; i < k; i++) v *= 10;
+                                        VALS[nvals++] = v; VALS[nvals++] = v + 9;
+                                }
+        }
         /* 2^64 multiples shifted by 2^32 (32-bit wrap) */
         for (int q = 1; q <= 4; q++) { VALS[nvals++] = ((u128)q << 32) + 5; VALS[nvals++] = ((u128)q << 16) + 5; VALS[nvals++] = ((u128)q << 8) + 5; }
 }
@@ -175,6 +186,43 @@ static int family_bounds(int shard, int nshards)
                         }
                 }
         }
+        return 0;
+}
+
+/* argument texts that fill the command buffer exactly (capacity-1 bytes), one less and one more, ending in a value, in an
+ * empty last argument (trailing comma) or in a sign / prefix only: what lies behind the terminator is never looked at */
+static int family_capfit(int shard, int nshards)
+{
+        static const char *TAILS[3][6] = {{"", "5", "-", "-5", "+", "05"}, {"", "5", "0", "05", "+", "55"}, {"", "0", "0x", "0x5", "0x05", "x"}};
+        int idx = 0;
+        for (int ti = 0; ti < 3; ti++)
+                for (int cap = 6; cap <= 18; cap += (cap < 10 ? 1 : 4))
+                        for (int layout = 0; layout < 3; layout++, idx++) {
+                                if (idx % nshards != shard) continue;
+                                struct wcmd *c = sw_table(1);
+                                strcpy(c[0].name, "+N");
+                                c[0].hmask = HM_W; c[0].nvar = 2;
+                                setvar(&c[0].var[0], CAT_VAR_UINT_DEC, 4, CAT_VAR_ACCESS_READ_WRITE);
+                                setvar(&c[0].var[1], TYPES[ti], 1, CAT_VAR_ACCESS_READ_WRITE);
+                                sw_caps(cap, layout);
+                                W.line_max = 60; W.mon = P_ALL;
+                                world_build();
+                                snprintf(SW.extra, sizeof SW.extra, "family=capfit type=%c cap=%d layout=%d", TCH[ti], cap, layout);
+                                for (int k = 0; k < 6; k++)
+                                        for (int total = cap - 2; total <= cap; total++) {
+                                                const char *tail = TAILS[ti][k];
+                                                int tl = (int)strlen(tail), zeros = total - 1 - tl;      /* <zeros x '0'> , <tail> */
+                                                if (zeros < 1) continue;
+                                                uint8_t line[64]; int n = 0;
+                                                memcpy(line, "AT+N=", 5); n = 5;
+                                                for (int i = 0; i < zeros - 1; i++) line[n++] = '0';
+                                                line[n++] = '7'; line[n++] = ',';
+                                                memcpy(line + n, tail, (size_t)tl); n += tl;
+                                                line[n++] = '\n';
+                                                SW.cases++;
+                                                if (sw_line(line, n)) return 1;
+                                        }
+                        }
         return 0;
 }
 
@@ -287,6 +335,7 @@ int main(int argc, char **argv)
         int maxlen = sw_argi(argc, argv, "--maxlen", 4);
         int r;
         if (!strcmp(fam, "huge")) r = family_huge(SW.shard, SW.nshards);
+        else if (!strcmp(fam, "capfit")) r = family_capfit(SW.shard, SW.nshards);
         else if (!strcmp(fam, "bytes")) r = family_bytes(SW.shard, SW.nshards);
         else if (!strcmp(fam, "implicit")) r = family_implicit(maxlen, SW.shard, SW.nshards);
         else if (!strcmp(fam, "all")) r = family_all(maxlen, SW.shard, SW.nshards);
